@@ -5,7 +5,7 @@ import numbers
 from collections.abc import Sized
 from bitstring.exceptions import CreationError
 from typing import Union, List, Iterable, Any, Optional, BinaryIO, overload, TextIO
-from bitstring.bits import Bits, BitsType
+from bitstring.bits import Bits, BitsType, MAX_CHARS
 from bitstring.bitarray_ import BitArray
 from bitstring.dtypes import Dtype, dtype_register
 from bitstring import utils
@@ -267,8 +267,15 @@ class Array:
     def __repr__(self) -> str:
         list_str = f"{self.tolist()}"
         trailing_bit_length = len(self.data) % self._dtype.bitlength
-        final_str = "" if trailing_bit_length == 0 else ", trailing_bits=" + repr(
-            self.data[-trailing_bit_length:])
+        final_str = ""
+        if trailing_bit_length != 0:
+            trailing_bits = self.data[-trailing_bit_length:]
+            if len(trailing_bits) > MAX_CHARS * 4:
+                # repr() would truncate and add a comment that swallows the closing bracket: spell the bits out.
+                trailing_repr = f"{trailing_bits.__class__.__name__}('0b{trailing_bits.bin}')"
+            else:
+                trailing_repr = repr(trailing_bits)
+            final_str = ", trailing_bits=" + trailing_repr
         return f"Array('{self._dtype}', {list_str}{final_str})"
 
     def astype(self, dtype: Union[str, Dtype]) -> Array:
